@@ -483,6 +483,9 @@ def variants():
 
     cf = "tempest/config.py"
     return [
+        Variant("c-coerce-before-validate", "bad", insert_before(cf, "SamplerConfig.__post_init__", "self.validate()", "if self.n_particles is not None:\n    object.__setattr__(self, 'n_particles', int(self.n_particles))"), ["C18.c"], quick=True),
+        Variant("c-rebind-after-validate", "bad", _after_validate("if self.periodic is not None:\n    object.__setattr__(self, 'periodic', sorted(self.periodic))"), ["C18.c"]),
+        Variant("c-default-before-validate-benign", "benign", insert_before(cf, "SamplerConfig.__post_init__", "self.validate()", "if self.resample is None:\n    object.__setattr__(self, 'resample', 'mult')")),
         Variant("a-ndim-strict", "bad", replace_expr(cf, "SamplerConfig.validate", "self.n_dim <= 0", "self.n_dim < 0"), ["C18.a"], quick=True),
         Variant("a-nparticles-dropped", "bad", replace_if(cf, "SamplerConfig.validate", "self.n_particles <= 0", "pass"), ["C18.a"], quick=True),
         Variant("a-ess-ratio-strict", "bad", replace_expr(cf, "SamplerConfig.validate", "self.ess_ratio <= 0", "self.ess_ratio < 0"), ["C18.a"]),
@@ -504,3 +507,16 @@ def _raise_needs_two(node, tree):
             n.test = ast.parse(f"len({n.test.id}) > 1", mode="eval").body
             return True
     return False
+
+
+def _after_validate(src: str):
+    from ..variants import edit, parse_stmts
+
+    def fn(node, tree):
+        for i, st in enumerate(node.body):
+            if isinstance(st, ast.Expr) and isinstance(st.value, ast.Call) and isinstance(st.value.func, ast.Attribute) and st.value.func.attr == "validate":
+                node.body[i + 1:i + 1] = parse_stmts(src)
+                return True
+        return False
+
+    return edit("tempest/config.py", "SamplerConfig.__post_init__", fn)
